@@ -582,7 +582,7 @@ def run(tier):
     chk.coverage = {
         'evaluations': len(cases),
         'distinct_nontrivial': len(nontrivial),
-        'rule': 'models linted on the implementation; non-trivial = at least one warning, distinct by model/source; every semantic '
+        'rule': '+ round 7: argument names beginning with an underscore (duplicates are redefinitions); models linted on the implementation; non-trivial = at least one warning, distinct by model/source; every semantic '
                 'warning is acted on and both versions executed on %d environments (+ a driver calling the affected function)' % len(ENVS),
         'exhaustive': True,
         'exhaustive_part': f'all statement lists of length 0..{maxlen} over the {len(ALPHABET)}-statement alphabet, as global code and as a function body',
